@@ -32,7 +32,10 @@ RULE = ("security: all s-expressions of depth <= D built from the 3 naming atoms
         "(5 policies incl. DummySecurityOptions and one allowing the otherwise disallowed module) x (module/class/"
         "function/generic/instance/method forms over 14 names), a fresh process runs c1 and then the whole call "
         "alphabet, every call judged by its own policy -- every ordered pair of calls (both orders) plus longer "
-        "histories; a failing call is re-run in fresh processes to find the shortest reproducing history.  round trip: every constructible "
+        "histories, under three policy-object lifecycles (all constructed strict-first up front; permissive-first up "
+        "front; each constructed and configured at first use inside the history); verdicts come from the harness's own "
+        "record of what each policy was configured to allow, never from the policy object; a failing call is re-run in "
+        "fresh processes to find the shortest reproducing history.  round trip: every constructible "
         "rooted graph with <= N container nodes of 7 kinds and <= 2 children each.  non-trivial = an expression "
         "that names something outside the policy, or a graph with a shared or cyclic reference")
 BOUNDS = {"quick": "s-expression depth 3 (naming atom inside one wrapper inside one wrapper); graphs with <= 3 nodes (3rd level: 5 kinds)",
@@ -153,23 +156,52 @@ class Env:
         jelly.setUnjellyableForClass(b"c45reg.Remote", c45ok.RegCopy)
         jelly.setUnjellyableFactoryForClass(b"c45reg.Fact", c45ok.factory)
         self.registered = {c45ok.RegCopy}
-        self.policies = {}
-        for pname in ("basic", "instances", "instances+function"):
-            p = jelly.SecurityOptions()
-            p.allowBasicTypes()
-            if pname != "basic":
-                p.allowInstancesOf(c45ok.Good, c45pkg.inner.Deep)
-            if pname == "instances+function":
-                p.allowTypes("function", "method")
-            self.policies[pname] = p
-        # extra policies used only by the history dimension (each call is judged by its own policy)
-        self.hist_policies = dict(self.policies)
-        self.hist_policies["dummy"] = jelly.DummySecurityOptions()
-        pe = jelly.SecurityOptions()
-        pe.allowBasicTypes()
-        pe.allowInstancesOf(c45evil.Bad)
-        pe.allowTypes("function", "method")
-        self.hist_policies["evil-instances+function"] = pe
+        # reference policies: what the harness *configured*, independent of how SecurityOptions stores it.  All
+        # verdicts use these, never the real policy object's own answers.
+        self.ref = {
+            "basic": RefPolicy(set(), set()),
+            "instances": RefPolicy({"c45ok", "c45pkg.inner"}, {c45ok.Good, c45pkg.inner.Deep}),
+            "instances+function": RefPolicy({"c45ok", "c45pkg.inner"}, {c45ok.Good, c45pkg.inner.Deep}),
+            "evil-instances+function": RefPolicy({"c45evil"}, {c45evil.Bad}),
+            "dummy": RefPolicy(None, None),
+        }
+        self.rebuild_policies("eager")
+
+    POLICY_ORDER = ["basic", "instances", "instances+function", "dummy", "evil-instances+function"]
+
+    def make_policy(self, pname):
+        """Construct and configure a fresh real policy object."""
+        jelly = self.jelly
+        if pname == "dummy":
+            return jelly.DummySecurityOptions()
+        p = jelly.SecurityOptions()
+        p.allowBasicTypes()
+        if pname in ("instances", "instances+function"):
+            p.allowInstancesOf(self.ok.Good, self.inner.Deep)
+        if pname == "evil-instances+function":
+            p.allowInstancesOf(self.evil.Bad)
+        if pname.endswith("+function"):
+            p.allowTypes("function", "method")
+        return p
+
+    def rebuild_policies(self, mode):
+        """eager: all policy objects constructed strict-first before any call; eager-reversed: permissive ones
+        constructed and configured first, the strict ones after them; lazy: each policy object is constructed and
+        configured at its first use inside the history (so a strict object made earlier is used again after a
+        permissive one has been configured, and the reverse)."""
+        env = self
+
+        class Table(dict):
+            def __missing__(self, pname):
+                self[pname] = env.make_policy(pname)
+                return self[pname]
+
+        t = Table()
+        order = {"eager": self.POLICY_ORDER, "eager-reversed": self.POLICY_ORDER[::-1], "lazy": []}[mode]
+        for pname in order:
+            t[pname]
+        self.hist_policies = t
+        self.policies = {k: t[k] for k in ("basic", "instances", "instances+function")} if mode != "lazy" else {}
         # remove the sources: everything needed is imported; the lazy ones must stay importable, so keep the dir
         # until close()
 
@@ -189,6 +221,21 @@ class Env:
             pass
         shutil.rmtree(self.root, ignore_errors=True)
         Env._cur = None
+
+
+class RefPolicy:
+    """Reference model of a policy: the sets the harness asked for (None = everything)."""
+
+    def __init__(self, modules, classes):
+        self.modules, self.classes = modules, classes
+
+    def isModuleAllowed(self, name):
+        if isinstance(name, bytes):
+            name = name.decode("utf-8", "replace")
+        return self.modules is None or name in self.modules
+
+    def isClassAllowed(self, cls):
+        return self.classes is None or cls in self.classes
 
 
 # name alphabet: (bytes name, category).  Categories go into signatures.
@@ -381,14 +428,15 @@ def evaluate(env, pname, sexp):
     """Run the real unjelly; return (outcome, [(kind, description)])."""
     import copy
     import warnings
-    policy = env.hist_policies[pname]
+    real_policy = env.hist_policies[pname]
+    policy = env.ref[pname]          # the oracle's view of the same policy
     env.reset()
     problems = []
     arg = copy.deepcopy(sexp)
     with warnings.catch_warnings():
         warnings.simplefilter("ignore")
         try:
-            res = env.jelly.unjelly(arg, taster=policy)
+            res = env.jelly.unjelly(arg, taster=real_policy)
             raised = None
         except Exception as e:
             raised = e
@@ -525,8 +573,9 @@ def in_fresh_fork(fn):
     return json.loads(b"".join(chunks).decode())
 
 
-def run_history(env, calls, seq):
+def run_history(env, calls, seq, mode="eager"):
     """Execute the calls with indices ``seq`` in order in this process; return the problems of each."""
+    env.rebuild_policies(mode)
     out = []
     for i in seq:
         pname, sexp, label = calls[i]
@@ -535,7 +584,12 @@ def run_history(env, calls, seq):
     return out
 
 
-def hist_sig(calls, seq, kind):
+def hist_sig(calls, seq, kind, mode="eager"):
+    base = hist_sig0(calls, seq, kind)
+    return base if mode == "eager" else base + ":policies-" + mode
+
+
+def hist_sig0(calls, seq, kind):
     p2, e2, l2 = calls[seq[-1]]
     if len(seq) == 1:
         return "jelly.unjelly:%s:%s" % (l2, kind)
@@ -561,17 +615,18 @@ def hist_main(idx, nparts, tier):
             if c1 % nparts == idx:
                 seq.append(c1)
                 seq.extend(range(n))
-        res = in_fresh_fork(lambda: run_history(env, calls, seq))
-        found = {}      # (label, policy, kind) of the failing call -> position of its first failure
-        for pos, problems in enumerate(res):
-            for kind, what in problems:
-                found.setdefault((calls[seq[pos]][2], calls[seq[pos]][0], kind), (pos, what))
+        found = {}      # (label, policy, kind) of the failing call -> (mode, position of its first failure, text)
+        for mode in ("eager", "eager-reversed", "lazy"):
+            res = in_fresh_fork(lambda: run_history(env, calls, seq, mode))
+            for pos, problems in enumerate(res):
+                for kind, what in problems:
+                    found.setdefault((calls[seq[pos]][2], calls[seq[pos]][0], kind), (mode, pos, what))
         findings = []
-        for (label, pname, kind), (pos, what) in sorted(found.items(), key=lambda kv: kv[1][0])[:6]:
+        for (label, pname, kind), (mode, pos, what) in sorted(found.items(), key=lambda kv: kv[1][1])[:6]:
             c2 = seq[pos]
 
             def fails(history):
-                r = in_fresh_fork(lambda: run_history(env, calls, history + [c2]))
+                r = in_fresh_fork(lambda: run_history(env, calls, history + [c2], mode))
                 return any(k == kind for k, _ in r[-1])
 
             preds = sorted(set(seq[:pos]))
@@ -590,11 +645,12 @@ def hist_main(idx, nparts, tier):
                     else:
                         break
                 best = cur + [c2]
-            findings.append({"sig": hist_sig(calls, best, kind),
-                             "detail": "history %s: last call %s" % (
-                                 [[calls[i][0], repr(calls[i][1])] for i in best[-3:]], what),
-                             "seq": best[-40:]})
-        sys.stdout.write("C45HIST " + json.dumps({"evaluations": len(seq), "ncalls": n, "findings": findings}) + "\n")
+            findings.append({"sig": hist_sig(calls, best, kind, mode),
+                             "detail": "policies %s; history %s: last call %s" % (
+                                 mode, [[calls[i][0], repr(calls[i][1])] for i in best[-3:]], what),
+                             "seq": best[-40:], "mode": mode})
+        evaluations = 3 * len(seq)
+        sys.stdout.write("C45HIST " + json.dumps({"evaluations": evaluations, "ncalls": n, "findings": findings}) + "\n")
     finally:
         env.close()
 
@@ -620,7 +676,7 @@ def hist_shard(stats, idx, nparts, tier):
     for f in out["findings"]:
         stats.outcome("history-violation")
         stats.violation(f["sig"], f["detail"], {"mode": "hist", "calls": [[calls[i][0], calls[i][1]] for i in f["seq"]],
-                                                "labels": [calls[i][2] for i in f["seq"]]})
+                                                "labels": [calls[i][2] for i in f["seq"]], "policies": f["mode"]})
     stats.sample({"history": "c1 then all %d (policy, expression) calls in one process, for every c1" % n})
 
 
@@ -1031,9 +1087,11 @@ def replay(w):
     try:
         if w["mode"] == "hist":
             calls = [(c[0], c[1], lab) for c, lab in zip(w["calls"], w["labels"])]
-            res = run_history(env, calls, list(range(len(calls))))
+            mode = w.get("policies", "eager")
+            res = run_history(env, calls, list(range(len(calls))), mode)
             seq = list(range(len(calls)))
-            return [(hist_sig(calls, seq, k), wh) for k, wh in res[-1]]
+            env.rebuild_policies("eager")
+            return [(hist_sig(calls, seq, k, mode), wh) for k, wh in res[-1]]
         if w["mode"] == "sec":
             outcome, problems, exc = evaluate(env, w["policy"], w["sexp"])
             return attribute(env, w["policy"], w["sexp"], problems)
